@@ -360,24 +360,14 @@ Proof.
 Qed.
 
 (* ================================================================================================
-   Part 5 — the pattern removed for a signature: pycoin's minimal push vs Core's CScript() << sig *)
-Lemma n2b_small_consts : n2b 0 = x00 /\ n2b 1 = x01 /\ n2b OP_PUSHDATA1 = x4c /\ n2b OP_PUSHDATA2 = x4d /\ n2b OP_PUSHDATA4 = x4e.
-Proof. repeat split; reflexivity. Qed.
-
-Lemma spec_push_core_push d : N.of_nat (length d) < 2 ^ 32 -> sig_pattern_excluded d = false ->
-  spec_push d = core_push d.
+   Part 5 — the pattern removed for a signature: pycoin's plain push IS Core's CScript() << sig *)
+Lemma plain_push_core_push d : N.of_nat (length d) < 2 ^ 32 -> plain_push d = Ret (core_push d).
 Proof.
-  intros Hlen Hex. unfold core_push. destruct n2b_small_consts as (E0 & E1 & E76 & E77 & E78).
-  destruct d as [|b [|b2 r]].
-  - reflexivity.
-  - cbn [sig_pattern_excluded] in Hex. unfold spec_push.
-    change (N.of_nat (length [b])) with 1. change (1 <? OP_PUSHDATA1) with true. cbv iota. rewrite E1.
-    apply orb_false_iff in Hex. destruct Hex as [H1 H2]. rewrite H1, H2. reflexivity.
-  - unfold spec_push. set (d := b :: b2 :: r) in *. set (n := N.of_nat (length d)) in *.
-    unfold OP_PUSHDATA1 at 1. rewrite E76, E77, E78.
-    destruct (n <=? 75) eqn:A.
-    + replace (n <? 76) with true by lia. reflexivity.
-    + replace (n <? 76) with false by lia. reflexivity.
+  intros Hlen. change (2 ^ 32) with 4294967296 in Hlen. unfold plain_push, core_push.
+  unfold OP_PUSHDATA1, OP_PUSHDATA2, OP_PUSHDATA4.
+  set (n := N.of_nat (length d)) in *.
+  destruct (n <? 76); [reflexivity|]. destruct (n <=? 255); [reflexivity|].
+  destruct (n <=? 65535); [reflexivity|]. replace (n <? 4294967296) with true by lia. reflexivity.
 Qed.
 
 Lemma firstn_app_le {A} (a b : list A) n : n = length a -> firstn n (a ++ b) = a.
@@ -414,53 +404,44 @@ Proof.
     + exists 78. apply Hvar; [auto|]. change (256 ^ N.of_nat 4) with 4294967296. lia.
 Qed.
 
-Lemma spec_push_complete d : N.of_nat (length d) < 2 ^ 32 -> complete_instruction (spec_push d).
-Proof.
-  intros Hlen. destruct (sig_pattern_excluded d) eqn:E.
-  - destruct d as [|b [|b2 r]]; try discriminate. cbn [sig_pattern_excluded] in E.
-    unfold spec_push. pose proof (b2n_lt b) as Hb.
-    destruct ((1 <=? b2n b) && (b2n b <=? 16)) eqn:A.
-    + exists (80 + b2n b). unfold core_get_op, OP_PUSHDATA4. rewrite b2n_n2b by lia.
-      replace (80 + b2n b <=? 78) with false by lia. reflexivity.
-    + cbn [orb] in E. rewrite E. exists 79. reflexivity.
-  - rewrite spec_push_core_push by assumption. now apply core_push_complete.
-Qed.
-
 Lemma codesep_complete : complete_instruction [n2b OP_CODESEPARATOR].
 Proof. exists OP_CODESEPARATOR. reflexivity. Qed.
 
 (* _delete_signature *)
 Lemma delete_signature_general script sig : N.of_nat (length sig) < 2 ^ 32 ->
-  exists G w, core_find_and_delete (spec_push sig) script = G ++ undecodable_tail script
-           /\ delete_subscript (undecodable_tail script) (spec_push sig) = Ret w
+  exists G w, core_find_and_delete (core_push sig) script = G ++ undecodable_tail script
+           /\ delete_subscript (undecodable_tail script) (core_push sig) = Ret w
            /\ delete_signature script sig = Ret (G ++ w).
 Proof.
-  intros Hlen. unfold delete_signature. rewrite push_is_spec by exact Hlen. cbn [bind].
-  apply find_and_delete_general. now apply spec_push_complete.
+  intros Hlen. unfold delete_signature. rewrite plain_push_core_push by exact Hlen. cbn [bind].
+  apply find_and_delete_general. now apply core_push_complete.
 Qed.
 
-Lemma delete_signature_iff script sig : N.of_nat (length sig) < 2 ^ 32 -> sig_pattern_excluded sig = false ->
+Lemma delete_signature_iff script sig : N.of_nat (length sig) < 2 ^ 32 ->
   (delete_signature script sig = Ret (core_find_and_delete (core_push sig) script)
    <-> rewalk_excluded (core_push sig) script = false).
 Proof.
-  intros Hlen Hex. unfold delete_signature. rewrite push_is_spec by exact Hlen. cbn [bind].
-  rewrite spec_push_core_push by assumption.
+  intros Hlen. unfold delete_signature. rewrite plain_push_core_push by exact Hlen. cbn [bind].
   apply find_and_delete_iff. now apply core_push_complete.
 Qed.
 
 Lemma delete_signature_decodable script sig : N.of_nat (length sig) < 2 ^ 32 ->
-  sig_pattern_excluded sig = false -> core_decodable script = true ->
+  core_decodable script = true ->
   delete_signature script sig = Ret (core_find_and_delete (core_push sig) script).
 Proof.
-  intros Hlen Hex Hd. unfold delete_signature. rewrite push_is_spec by exact Hlen. cbn [bind].
-  rewrite spec_push_core_push by assumption.
+  intros Hlen Hd. unfold delete_signature. rewrite plain_push_core_push by exact Hlen. cbn [bind].
   apply find_and_delete_decodable; [now apply core_push_complete | exact Hd].
 Qed.
 
-(* the patterns differ only for a one-byte blob: hash-type byte alone, empty DER part — never a valid signature *)
-Lemma pattern_differs_only_when_sig_unparseable sig :
-  sig_pattern_excluded sig = true -> length sig = 1%nat /\ removelast sig = [].
-Proof. destruct sig as [|b [|b2 r]]; try discriminate. intros _. split; reflexivity. Qed.
+(* a blob of 2^32 bytes or more: size.to_bytes(4, "little") raises OverflowError *)
+Lemma delete_signature_overflow script sig : 2 ^ 32 <= N.of_nat (length sig) ->
+  delete_signature script sig = Raise E_OVERFLOW.
+Proof.
+  intros H. change (2 ^ 32) with 4294967296 in H. unfold delete_signature, plain_push.
+  set (n := N.of_nat (length sig)) in *.
+  replace (n <? 76) with false by lia. replace (n <=? 255) with false by lia.
+  replace (n <=? 65535) with false by lia. replace (n <? 4294967296) with false by lia. reflexivity.
+Qed.
 
 (* ================================================================================================
    Part 6 — serialization: the outcome-valued streamers succeed on in-range fields and write Core's bytes *)
@@ -1183,12 +1164,12 @@ Proof.
 Qed.
 
 Lemma delete_signatures_decodable sigs : forall script,
-  Forall (fun sg => N.of_nat (length sg) < 2 ^ 32 /\ sig_pattern_excluded sg = false) sigs ->
+  Forall (fun sg => N.of_nat (length sg) < 2 ^ 32) sigs ->
   core_decodable script = true ->
   delete_signatures script sigs = Ret (core_script_code_base script sigs).
 Proof.
   induction sigs as [|sg sigs IH]; intros script Hall Hd; [reflexivity|].
-  inversion Hall as [|? ? [Hl He] Hrest]; subst.
+  inversion Hall as [|? ? Hl Hrest]; subst.
   cbn [delete_signatures]. unfold core_script_code_base. cbn [fold_left].
   rewrite delete_signature_decodable by assumption. cbn [bind].
   apply IH; [exact Hrest|]. apply find_and_delete_keeps_decodable; [now apply core_push_complete|exact Hd].
@@ -1200,7 +1181,7 @@ Definition find_and_delete_statement : Prop :=
   forall script pat, complete_instruction pat ->
   delete_subscript script pat = Ret (core_find_and_delete pat script).
 Definition delete_signature_statement : Prop :=
-  forall script sig, N.of_nat (length sig) < 2 ^ 32 -> core_decodable script = true ->
+  forall script sig, N.of_nat (length sig) < 2 ^ 32 ->
   delete_signature script sig = Ret (core_find_and_delete (core_push sig) script).
 Definition legacy_statement : Prop :=
   forall t script idx ht,
@@ -1231,11 +1212,12 @@ Proof.
   intros H. specialize (H witness_script [xab] codesep_complete). vm_compute in H. discriminate.
 Qed.
 
+(* <truncated 5-byte push: 00> <push of the signature 30 01>: pycoin walks on and removes the signature push *)
 Lemma delete_signature_refuted : ~ delete_signature_statement.
 Proof.
-  intros H. specialize (H [x55; x01; x05; x55] [x05]).
-  assert (A : N.of_nat (length [x05]) < 2 ^ 32) by (vm_compute; reflexivity).
-  specialize (H A eq_refl). vm_compute in H. discriminate.
+  intros H. specialize (H [x05; x00; x02; x30; x01] [x30; x01]).
+  assert (A : N.of_nat (length [x30; x01]) < 2 ^ 32) by reflexivity.
+  specialize (H A). vm_compute in H. discriminate.
 Qed.
 
 Lemma legacy_refuted : ~ legacy_statement.
@@ -1303,3 +1285,7 @@ Lemma forkid_bch_q (sha256 dsha256 : bytes -> bytes) t script idx ht u :
   signature_hash sha256 dsha256 BCH t script idx ht
   = forkid_result dsha256 (forkid_preimage dsha256 FORKID_BCH script (to_core t) idx (to_value u) ht).
 Proof. intros. now apply forkid_bch. Qed.
+
+Lemma signature_pattern_q sig : N.of_nat (length sig) < 2 ^ 32 ->
+  plain_push sig = Ret (core_push sig) /\ complete_instruction (core_push sig).
+Proof. intros H. split; [now apply plain_push_core_push | now apply core_push_complete]. Qed.
